@@ -220,6 +220,7 @@ SUBCHECKS = [
         strategy=lambda tier: query_case(),
         n={"quick": 220, "thorough": 4000},
         shards={"quick": 12, "thorough": 16},
+        fuzz={"thorough": (2, 300)},
         doc="VariableElimination.query under 7 elimination options x joint in {T,F} vs brute-force joint "
         "(values by named assignment, scope, state names)",
     ),
